@@ -115,7 +115,93 @@ theorem pass_only_closed_or_probe (s : CState) (now retryAt : Nat) (won : Bool) 
     exact Or.inr ⟨rfl, h.1, h.2⟩
   | halfOpen => simp [tryPassDecision] at h
 
+/-! ## who may end a Half-Open phase (request-level model `RSt.step`) -/
+
+/-- **A request that is not the probe never moves the breaker**: the transitions a request performs are none, or its own
+Open→Half-Open, or that followed by its own roll-back (its entry was rejected by another rule). In particular a transition
+out of Half-Open performed during a request belongs to the thread that opened this very phase in the same request. -/
+theorem request_transitions (s : RSt) (t now : Nat) (b : Bool) :
+    (s.step (.request t now b)).2.1 = [] ∨ (s.step (.request t now b)).2.1 = [⟨t, .opn, .halfOpen⟩] ∨
+    (s.step (.request t now b)).2.1 = [⟨t, .opn, .halfOpen⟩, ⟨t, .halfOpen, .opn⟩] := by
+  unfold RSt.step
+  cases s.state with
+  | closed => left; rfl
+  | halfOpen => left; rfl
+  | opn =>
+    simp only []
+    by_cases h1 : s.retryAt ≤ now
+    · by_cases h2 : b = true
+      · right; right; simp [h1, h2]
+      · right; left; simp [h1, h2]
+    · left; simp [h1]
+
+/-- while Half-Open every request is refused and changes nothing -/
+theorem half_open_request_refused (s : RSt) (h : s.state = .halfOpen) (t now : Nat) (b : Bool) :
+    s.step (.request t now b) = (s, [], some false) := by
+  unfold RSt.step; rw [h]
+
+/-- **One probe per Half-Open phase, over histories**: from a Half-Open state, in every history of requests by any threads
+(no completion in between), every request is refused and the breaker stays Half-Open. -/
+theorem phase_admits_no_second_probe (s : RSt) (h : s.state = .halfOpen) (hist : List RStep)
+    (hreq : ∀ st ∈ hist, ∃ t now b, st = .request t now b) :
+    (∀ o ∈ s.run hist, o.2.2 = some false ∧ o.2.1 = []) ∧ (s.after hist).state = .halfOpen := by
+  induction hist generalizing s with
+  | nil => exact ⟨fun o ho => (by cases ho), h⟩
+  | cons st rest ih =>
+    obtain ⟨t, now, b, rfl⟩ := hreq _ List.mem_cons_self
+    have hs := half_open_request_refused s h t now b
+    have ih' := ih s h (fun x hx => hreq x (List.mem_cons_of_mem _ hx))
+    simp only [RSt.run, RSt.after, hs]
+    refine ⟨?_, ih'.2⟩
+    intro o ho
+    rcases List.mem_cons.mp ho with rfl | ho
+    · exact ⟨rfl, rfl⟩
+    · exact ih'.1 o ho
+
+/-- the transitions of any history, concatenated, are a path of the state machine (so the listeners see a valid path) -/
+theorem run_log_is_path (s : RSt) (hist : List RStep) :
+    isPath s.state ((s.run hist).flatMap (fun o => o.2.1)) = true := by
+  induction hist generalizing s with
+  | nil => rfl
+  | cons st rest ih =>
+    simp only [RSt.run, List.flatMap_cons]
+    cases st with
+    | request t now b =>
+      unfold RSt.step
+      cases hst : s.state <;> simp only []
+      · have := ih s; rw [hst] at this; simpa using this
+      · split
+        · split
+          · have := ih { s with state := .opn }
+            simp only [List.cons_append, List.nil_append, isPath, decide_true, Bool.true_and]
+            exact this
+          · have := ih { s with state := .halfOpen }
+            simp only [List.cons_append, List.nil_append, isPath, decide_true, Bool.true_and]
+            exact this
+        · have := ih s; rw [hst] at this; simpa using this
+      · have := ih s; rw [hst] at this; simpa using this
+    | complete t now hit trip =>
+      unfold RSt.step
+      cases hst : s.state <;> simp only []
+      · split
+        · have := ih { s with state := .opn, retryAt := now + s.retryMs }
+          simp only [List.cons_append, List.nil_append, isPath, decide_true, Bool.true_and]
+          exact this
+        · have := ih s; rw [hst] at this; simpa using this
+      · have := ih s; rw [hst] at this; simpa using this
+      · split
+        · have := ih { s with state := .opn, retryAt := now + s.retryMs }
+          simp only [List.cons_append, List.nil_append, isPath, decide_true, Bool.true_and]
+          exact this
+        · have := ih { s with state := .closed }
+          simp only [List.cons_append, List.nil_append, isPath, decide_true, Bool.true_and]
+          exact this
+
 example : (casRun .opn [⟨1, .opn, .halfOpen⟩, ⟨2, .opn, .halfOpen⟩, ⟨1, .halfOpen, .closed⟩]).2 =
     [⟨1, .opn, .halfOpen⟩, ⟨1, .halfOpen, .closed⟩] := by decide
+
+-- two threads race for the probe after the retry time; the loser is refused and moves nothing; the winner's failed probe re-opens
+example : (({ state := .opn, retryAt := 5 } : RSt).run [.request 1 7 false, .request 2 7 false, .complete 1 9 true false]).map (fun o => (o.2.1, o.2.2)) =
+    [([⟨1, .opn, .halfOpen⟩], some true), ([], some false), ([⟨1, .halfOpen, .opn⟩], none)] := by decide
 
 end Sentinel.Conc
